@@ -86,8 +86,10 @@ fn main() {
             let kind = match args[2].as_str() {
                 "cancel" => rnd::TwinKind::Cancel,
                 "stall" => rnd::TwinKind::Stall,
+                "fragcancel" => rnd::TwinKind::FragCancel(true),
                 _ => rnd::TwinKind::Fragment,
             };
+            let cuts = matches!(kind, rnd::TwinKind::FragCancel(_));
             let seed: u64 = args[3].parse().expect("seed");
             let count: usize = args[4].parse().expect("count");
             let mut out = std::io::BufWriter::new(std::fs::File::create(&args[5]).expect("create out"));
@@ -98,12 +100,16 @@ fn main() {
             let mut bad = 0;
             for i in 0..count {
                 let s = seed.wrapping_mul(7_000_003).wrapping_add(i as u64);
-                let program = rnd::twin_program(s, 10 + (i % 7), cfg0.rx);
+                let program = if cuts { rnd::twin_program_with(s, 12 + (i % 7), cfg0.rx, 9) }
+                              else { rnd::twin_program(s, 10 + (i % 7), cfg0.rx) };
                 let dropped = std::rc::Rc::new(std::cell::RefCell::new(Vec::new()));
                 let mut cfg = cfg0.clone();
                 cfg.name = format!("twin-{}-{seed}-{i}-variant", args[2]);
-                let dir = Box::new(rnd::TwinDirector::new(s, program.clone(), kind, cfg.rx, dropped.clone()));
-                let variant = runner::run_scenario(&cfg, dir);
+                let mut dir = rnd::TwinDirector::new(s, program.clone(), kind, cfg.rx, dropped.clone());
+                if cuts {
+                    dir = dir.with_cuts(s);
+                }
+                let variant = runner::run_scenario(&cfg, Box::new(dir));
                 // the base run: the same program minus the requests that were cancelled before
                 // they were enqueued, nothing pending, nothing partial, nothing cancelled
                 let skip: Vec<usize> = dropped.borrow().clone();
@@ -111,8 +117,12 @@ fn main() {
                     .filter(|(k, _)| !skip.contains(k)).map(|(_, st)| st.clone()).collect();
                 cfg.name = format!("twin-{}-{seed}-{i}-base", args[2]);
                 let nobody = std::rc::Rc::new(std::cell::RefCell::new(Vec::new()));
-                let dir = Box::new(rnd::TwinDirector::new(s, base_program, rnd::TwinKind::Base, cfg.rx, nobody));
-                let base = runner::run_scenario(&cfg, dir);
+                let base_kind = if cuts { rnd::TwinKind::FragCancel(false) } else { rnd::TwinKind::Base };
+                let mut dir = rnd::TwinDirector::new(s, base_program, base_kind, cfg.rx, nobody);
+                if cuts {
+                    dir = dir.with_cuts(s);
+                }
+                let base = runner::run_scenario(&cfg, Box::new(dir));
                 for res in [&base, &variant] {
                     if res.mismatch.is_some() || res.panicked.is_some() || res.watchdog { bad += 1; }
                     for l in &res.lines { writeln!(out, "{l}").unwrap(); }
